@@ -1,0 +1,10 @@
+//go:build verif
+
+// Contracts for this package, checked by /verif/bin/govc (comment-only file).
+package ro
+
+//@ fileprops C18
+
+// Totality sweep: every function of the package is checked for index / slice-bounds /
+// nil / division / conversion panics on ALL inputs; loop invariants for index bounds are inferred.
+//@ sweep nopanic nonil infer
